@@ -100,7 +100,7 @@ ROUND8 = {
     "C14": "Also: the standard reader types as the randomness source; " + OWN + ".",
     "C15": "Also: repeated hashing after the caller destroyed the returned points.",
     "C16": "Also: panic-then-use (a list with an uninitialised / nil entry at a chosen position or mismatched lengths, recovered, then shorter / equal / longer valid calls); " + OWN + ".",
-    "C17": "Also: every operation traced once more right after the SAME operation on a fixed secret that is itself among the secrets (a memo consulted by comparing with the previous secret takes another path exactly then).",
+    "C17": "Also: every operation traced once more right after the SAME operation on a fixed secret that is itself among the secrets (a memo consulted by comparing with the previous secret takes another path exactly then), and right after recovered panics of the variable-time and multi-scalar entry points on public values (what an abandoned call leaves in shared scratch must not change how the secret is processed). A trace difference is only reported if it reproduces after every pending finalizer has run and with the collector switched off (the block counters are process-wide; asynchronous work of the library is not a dependence on the secret).",
     "C18": "Also: 8 goroutines make the simultaneous FIRST accessor calls on fresh key / point / scalar objects (700 rounds quick), then overwrite what they were given, then the accessors are read again; panic-then-use.",
     "C19": "Also: the cross-build transcript uses receivers with a past (zero value, identity, generator, earlier results).",
     "C20": "Also: hash-to-curve tags composed in a private buffer that each goroutine reuses, against the reference model; the callers overwrite the results of the concurrent first accessor calls and read again.",
